@@ -415,6 +415,9 @@ def catalogue():
     add('sum(axis=-1)', lambda A, x: A.sum(x * x, axis=-1), shape=(2, 3), group='reduce')
     add('sum(square,axis=0)', lambda A, x: A.sum(x * x, axis=0), shape=(2, 2), group='reduce')
     add('sum(vec,axis=0)', lambda A, x: A.sum(x * x, axis=0), group='reduce')
+    add('sum(rank3,axis=1)', lambda A, x: A.sum(x * x, axis=1) * A.c['w'], shape=(2, 3, 2), group='reduce', consts={'w': (2, 2)})
+    add('sum(rank3,axis=0)*sum(axis=-2)', lambda A, x: A.sum(x, axis=0) * A.sum(x * x, axis=-3), shape=(2, 3, 2), group='reduce')
+    add('x.sum(axis=0) method, tall', lambda A, x: x.sum(axis=0) * A.c['w'], shape=(3, 2), group='reduce', consts={'w': (2,)})
     add('prod', lambda A, x: A.prod(x), group='reduce')
     add('trace', lambda A, x: A.trace(A.dot(x, x)), shape=(2, 2), group='reduce')
     add('diag(mat)', lambda A, x: A.diag(x) * 2.0, shape=(2, 2), group='shape')
